@@ -185,7 +185,8 @@ pub fn run(tier: Tier) -> Report {
                 blk.ev = vec![Ev { run, level: if b % 2 == 0 { level } else { -level }, form: Form::Short }];
                 blk
             });
-            pics.push(Pic { hdr: shdr(16, 16, 0, 0, q, (k % 2) as u8), mbs: vec![Mb::Coded { kind: Kind::Intra, dquant: 0, mvd: vec![], blocks }] });
+            pics.push(Pic { hdr: shdr(16, 16, 0, 0, q, (k % 2) as u8), mbs: vec![Mb::Coded { kind: Kind::Intra, dquant: 0, mvd: vec![], blocks: blocks.clone() }] });
+            pics.push(Pic { hdr: Hdr::Std(StdHdr::custom(16, 16, false, 0, q)), mbs: vec![Mb::Coded { kind: Kind::Intra, dquant: 0, mvd: vec![], blocks }] });
         }
     }
     let stats = std::sync::Mutex::new(CmpStats::default());
@@ -205,14 +206,16 @@ pub fn run(tier: Tier) -> Report {
     rep.extra("end_to_end_pictures", json!(pics.len()));
 
     // ---- (c) INTRADC: all 256 codes x 6 block positions
-    let cases: Vec<(u8, usize)> = (0..=255u8).flat_map(|c| (0..6).map(move |b| (c, b))).collect();
-    cases.par_iter().for_each(|&(code, b)| {
+    // (under three header kinds: Sorenson version 0 / 1 and H.263 with PLUSPTYPE)
+    let cases: Vec<(u8, usize, u8)> = (0..=255u8).flat_map(|c| (0..6).flat_map(move |b| (0..3u8).map(move |k| (c, b, k)))).collect();
+    cases.par_iter().for_each(|&(code, b, kind)| {
         let blocks: [Blk; 6] = std::array::from_fn(|k| Blk::dc(if k == b { code } else { 50 }));
-        let pic = Pic { hdr: shdr(16, 16, 0, 0, 13, (code % 2) as u8), mbs: vec![Mb::Coded { kind: Kind::Intra, dquant: 0, mvd: vec![], blocks }] };
+        let hdr = if kind == 2 { Hdr::Std(StdHdr::custom(16, 16, false, 0, 13)) } else { shdr(16, 16, 0, 0, 13, kind) };
+        let pic = Pic { hdr, mbs: vec![Mb::Coded { kind: Kind::Intra, dquant: 0, mvd: vec![], blocks }] };
         let bytes = encode_bytes(&pic);
-        let mut st = h263_rs::H263State::new(options(true, false));
+        let mut st = h263_rs::H263State::new(options(kind != 2, false));
         let o = decode_bytes(&mut st, &bytes);
-        let replay = replay_seq(1, &[bytes.clone()], "INTRADC");
+        let replay = replay_seq(if kind != 2 { 1 } else { 0 }, &[bytes.clone()], "INTRADC");
         if code == 0 || code == 128 {
             if !o.is_err() {
                 rep.violation("C11/intradc-forbidden-accepted", format!("INTRADC code {code} in block {b}: {}", o.short()), replay);
@@ -245,20 +248,22 @@ pub fn run(tier: Tier) -> Report {
     let mut n_dq = 0u64;
     for q in 1..=31u8 {
         for dq in [-2i8, -1, 1, 2] {
-            for version in [0u8, 1] {
+            for version in [0u8, 1, 2] {
+                // version 2 stands for H.263 with PLUSPTYPE
                 let mk = |kind: Kind, pq: u8, dquant: i8| {
                     let blocks: [Blk; 6] = std::array::from_fn(|b| {
                         let mut blk = Blk::dc(100);
                         blk.ev = vec![ev_auto(true, b as u8, if b % 2 == 0 { 10 } else { -10 }, version == 1)];
                         blk
                     });
-                    Pic { hdr: shdr(16, 16, 0, 0, pq, version), mbs: vec![Mb::Coded { kind, dquant, mvd: vec![], blocks }] }
+                    let hdr = if version == 2 { Hdr::Std(StdHdr::custom(16, 16, false, 0, pq)) } else { shdr(16, 16, 0, 0, pq, version) };
+                    Pic { hdr, mbs: vec![Mb::Coded { kind, dquant, mvd: vec![], blocks }] }
                 };
                 let with_dq = mk(Kind::IntraQ, q, dq);
                 let target = (q as i32 + dq as i32).clamp(1, 31) as u8;
                 let plain = mk(Kind::Intra, target, 0);
-                let mut a = Dec::new(1);
-                let mut b = Dec::new(1);
+                let mut a = Dec::new(if version == 2 { 0 } else { 1 });
+                let mut b = Dec::new(if version == 2 { 0 } else { 1 });
                 let mut st = CmpStats::default();
                 n_dq += 2;
                 if let Err(f) = a.step(&with_dq, "C11", &mut st) {
